@@ -358,11 +358,39 @@ func freshView(c *imapc.Client) (*wview, error) {
 		if m := reUIDNext.FindStringSubmatch(all); m != nil {
 			mv.Next, _ = strconv.Atoi(m[1])
 		}
-		r, err = okCmd(c, "UID FETCH 1:* (UID FLAGS BODY.PEEK[])")
+		r, err = c.Cmd("UID FETCH 1:* (UID FLAGS BODY.PEEK[])")
 		if err != nil {
-			return nil, err
+			return nil, fmt.Errorf("UID FETCH 1:*: %w", err)
 		}
-		for _, e := range imapc.Evs(r) {
+		evs := imapc.Evs(r)
+		if r.Status != "OK" {
+			// a listed message cannot be served: that is an observation, not a harness problem. List the messages
+			// without their bodies and fetch the bodies one by one; the unservable ones are marked.
+			r2, err := okCmd(c, "UID FETCH 1:* (UID FLAGS)")
+			if err != nil {
+				return nil, err
+			}
+			evs = nil
+			for _, e := range imapc.Evs(r2) {
+				if e.Kind != "FETCH" {
+					continue
+				}
+				r3, err := c.Cmd(fmt.Sprintf("UID FETCH %d (BODY.PEEK[])", e.UID))
+				if err != nil {
+					return nil, err
+				}
+				for _, b := range imapc.Evs(r3) {
+					if b.Kind == "FETCH" && r3.Status == "OK" {
+						e.Lits = b.Lits
+					}
+				}
+				if r3.Status != "OK" {
+					e.Lits = [][]byte{[]byte("X-Marker: ?unfetchable(" + r3.Status + ")\r\n")}
+				}
+				evs = append(evs, e)
+			}
+		}
+		for _, e := range evs {
 			if e.Kind != "FETCH" {
 				continue
 			}
